@@ -32,4 +32,7 @@ def run_passes(name, imports, cases, model_ok=True, spec_ok=True, jobs=16):
             o_bad = [o_idx[j] for j in bad]
         except coqrun.CoqEvalError as e:
             err = (err or "") + str(e)[-1500:]
-    return k_bad, o_bad, len(k_idx), len(o_idx), err
+            nk_o = 0
+    if err:
+        print('COQ-EVAL-ERROR:', err[:1500], flush=True)
+    return k_bad, o_bad, (0 if err else len(k_idx)), (0 if err else len(o_idx)), err
